@@ -8,6 +8,9 @@ import TunnoxModel.Spec.C13
          | "sched" idx* "/" prog (";" prog)*   gated schedule of concurrent callers (memory)
          | "conc" prog (";" prog)*          free-running concurrent callers (memory)
          | "hammer" …                        crash/race stress, expected observation `ok`
+         | "burst" item* "/" prog (";" prog)* "/" item*   sequential prefix (with `sl`), free-running burst, sequential probe
+         | "sweep" call|tick keys writers rounds   real CleanupExpired vs concurrent re-writes of expired keys;
+                                             obs carries one per-key sequential history, judged by holdsSeq
   item  := call | "sl" <ns>                  (`sl` advances the clock; every call advances it by 1)
   call  := set k a ttl | setl k n a… ttl | get k | del k | ex k | nx k a ttl | cas k (nil|a) a ttl
          | exp k ttl | ttl k | getl k | app k a | rem k a | hset k f a | hget k f | hall k | hdel k f
@@ -92,6 +95,12 @@ def toHistory : Nat → List Item → History
   | now, .sleep n :: r => toHistory (now + n) r
   | now, .call op :: r => (now, op) :: toHistory (now + 1) r
 
+/-- Clock after the items. -/
+def endClock : Nat → List Item → Nat
+  | now, [] => now
+  | now, .sleep n :: r => endClock (now + n) r
+  | now, .call _ :: r => endClock (now + 1) r
+
 def parseHistory (ts : List String) : Option History :=
   (parseItems (ts.length + 1) ts).map (toHistory 1000)
 
@@ -133,6 +142,8 @@ def runModel (ts : List String) : String :=
       | _, _ => "bad-case"
     | _ => "bad-case"
   | "hammer" :: _ => "ok"
+  | "sweep" :: _ => "ok"
+  | "burst" :: _ => "-"
   | _ => "bad-case"
 
 def runHolds (caseToks obsToks : List String) : String :=
@@ -157,6 +168,24 @@ def runHolds (caseToks obsToks : List String) : String :=
     | some progs => boolStr (Spec.holdsConc burstNow progs (splitTok ";" obsToks))
     | none => "false"
   | "hammer" :: _ => boolStr (obsToks == ["ok"])
+  | "burst" :: rest =>
+    -- burst <prefix items> / <prog> ; <prog> … / <probe items>      obs: <prefix> / <thr> ; <thr> / <probe>
+    match splitTok "/" rest, splitTok "/" obsToks with
+    | [pre, ps, suf], [oPre, oThr, oSuf] =>
+      match parseItems (pre.length + 1) pre, parseProgs ps, parseItems (suf.length + 1) suf with
+      | some pre, some progs, some suf =>
+        let now := endClock 1000 pre
+        boolStr (Spec.holdsBurst (toHistory 1000 pre) now progs (toHistory now suf) oPre (splitTok ";" oThr) oSuf)
+      | _, _, _ => "false"
+    | _, _ => "false"
+  | "sweep" :: _ =>
+    -- obs = keys <n> lost <c> hist <per-key history> obs <its answers>: the reference judges the key
+    match obsToks with
+    | "keys" :: _ :: "lost" :: _ :: "hist" :: rest =>
+      match parseHistory (rest.takeWhile (· != "obs")) with
+      | some h => boolStr (Spec.holdsSeq h ((rest.dropWhile (· != "obs")).drop 1))
+      | none => "false"
+    | _ => "false"
   | _ => "false"
 
 end Tunnox.Drv.C13
